@@ -66,7 +66,7 @@ func (v *Version) IsNative() bool {
 	return len(v.Revision) == 0
 }
 
-func (version *Version) MarshalText() ([]byte, error) {
+func (version Version) MarshalText() ([]byte, error) {
 	return []byte(version.String()), nil
 }
 
